@@ -34,7 +34,7 @@ NATIVE_PY = "/venv/bin/python"
 ASSUMPTIONS_COMMON = [
     "A1 python int = mathematical integer (exact)",
     "A2 float/np.float64 = real number: rounding, NaN, inf, signed zero not modelled; overflow/domain of exp/log/sqrt made explicit as side conditions",
-    "A3 exp/log/sqrt/tanh/atanh/sin/cos/arccos/pow uninterpreted with ground instances of axioms (pyvc/solver.py:axiom_instances; Lean statements in pyvc/axioms/Axioms.lean)",
+    "A3 exp/log/sqrt/tanh/atanh/sin/cos/arccos/pow uninterpreted with ground instances of schemas (pyvc/solver.py:axiom_instances); every schema except the two for atanh is a theorem proved in pyvc/axioms/Axioms.lean (Lean 4 + Mathlib; re-checked by the thorough tier, tools/check_axioms.sh); the atanh schemas (tanh(atanh x)=x on (-1,1), atanh>0 on (0,1)) are trusted",
     "A4 fixed-shape numpy arrays expanded exactly; numpy functions per pyvc/models/numpy_model.py (TRUSTED)",
     "A5 single-threaded, no re-entrancy",
     "callee bodies inside quansino are inlined (symbolically executed), not abstracted by contracts; externals (numpy, ASE, scipy, networkx, json, files, rng) are TRUSTED contracts in pyvc/models",
@@ -62,6 +62,39 @@ def concretize(model, syms):
         else:
             out[k] = jsonable(model_value(model, v))
     return out
+
+
+_UNIT_VALUES = None
+
+
+def physical_model(ob, S):
+    """the proofs hold for ANY positive value of ASE's unit constants; a counter-model is only replayable against the
+    real code if it uses the real values, so look for one with the units pinned (None if the solver finds none)"""
+    global _UNIT_VALUES
+    if isinstance(ob.goal, bool):
+        return None
+    try:
+        if _UNIT_VALUES is None:
+            out = subprocess.run([NATIVE_PY, "-c", "import ase.units as u, math; print(repr([u.kB, u._e, u._hplanck, u._Nav, u.fs, u.GPa, math.pi]))"],
+                                 capture_output=True, text=True, timeout=120).stdout
+            _UNIT_VALUES = [Fraction(x) for x in eval(out)]       # exact values of the floats
+        from pyvc.models.numpy_model import PI
+        from pyvc.models.stdlib import UNIT_NAMES, UNITS
+        s = z3.Solver()
+        s.set("timeout", 8000)
+        hy = list(ob.hyps) + list(S.global_axioms)
+        s.add(*hy)
+        s.add(*axiom_instances(hy + [ob.goal]))
+        s.add(z3.Not(ob.goal))
+        for nm, val in zip(UNIT_NAMES, _UNIT_VALUES):
+            s.add(UNITS[nm].t == z3.RealVal(str(val)))
+        lo, hi = _UNIT_VALUES[6] - Fraction(1, 10**12), _UNIT_VALUES[6] + Fraction(1, 10**12)
+        s.add(PI.t >= z3.RealVal(str(lo)), PI.t <= z3.RealVal(str(hi)))
+        if s.check() == z3.sat:
+            return s.model()
+    except Exception:  # noqa: BLE001
+        return None
+    return None
 
 
 def run_native(args, timeout=1800):
@@ -99,6 +132,9 @@ def clause_name(name):
 
 def lockable(o):
     """contract clauses written in contracts/*.py (not the side conditions collected from the explored paths)"""
+    import re
+    if re.search(r":\d+#", o.name):
+        return False          # per-source-line clauses (static scans) move with every edit of the file
     return o.kind in ("ensures", "inv", "lemma", "frame", "cover", "static", "loop") and not o.name.startswith("[") and "#noraise" not in o.name and "#call.pre" not in o.name and "#loop[" not in o.name
 
 
@@ -115,10 +151,43 @@ def main():
     t0 = time.time()
 
     if a.replay:
-        p = run_native(["replay", prop, a.replay])
-        sys.stdout.write(p.stdout)
-        sys.stderr.write(p.stderr)
-        return p.returncode
+        try:
+            with open(a.replay if os.path.isabs(a.replay) else os.path.join(HERE, a.replay)) as f:
+                rec = json.load(f)
+        except (OSError, ValueError) as e:
+            print(f"cannot read replay file {a.replay}: {e}")
+            return 3
+        if rec.get("case") or rec.get("kind") == "bounded":
+            # a concrete input: run it against the real code
+            p = run_native(["replay", prop, a.replay])
+            sys.stdout.write(p.stdout)
+            sys.stderr.write(p.stderr)
+            return p.returncode
+        # no failing input was found for this obligation: the replay is the obligation itself, re-generated from the
+        # current tree and re-discharged
+        want = clause_name(rec.get("obligation", ""))
+        print(f"replay of obligation {want} (no concrete input recorded; verifier output at record time: {str(rec.get('why') or rec.get('solver_model') or '')[:300]})")
+        try:
+            mod = importlib.import_module(f"contracts.{prop}")
+            S = Session(prop)
+            mod.build(S, "quick")
+            S.discharge_all(timeout_ms=10000)
+        except Exception:
+            traceback.print_exc()
+            return 3
+        hits = [o for o in S.obligations if clause_name(o.name) == want]
+        if not hits:
+            print(f"obligation {want} is not generated from the current tree (undecided)")
+            return 2
+        bad = [o for o in hits if o.status == "failed"]
+        if bad:
+            print(f"VIOLATION property={prop} replay={a.replay} obligation={bad[0].name} no-failing-input-found")
+            return 1
+        if any(o.status != "discharged" for o in hits):
+            print(f"UNDECIDED property={prop} obligation={want}")
+            return 2
+        print(f"obligation {want} is discharged on the current tree ({len(hits)} path instance(s))")
+        return 0
 
     try:
         mod = importlib.import_module(f"contracts.{prop}")
@@ -197,6 +266,11 @@ def main():
         if k is not None and ob.status == "failed":
             known_hit.append((k, ob.name))
             continue
+        if ob.status == "failed" and ob.kind == "cover" and any(lbl and (lbl in ob.name or ob.name.split("#")[0] in lbl) for lbl, _ in S.unsupported):
+            # a coverage clause cannot be judged when part of its scenario left the verifier's reach
+            ob.status, ob.reason = "unknown", "coverage clause of a scenario that is partly out of reach"
+            undecided.append(ob)
+            continue
         if ob.status == "failed":
             rp = os.path.join("replays", prop, hashlib.sha1(ob.name.encode()).hexdigest()[:12] + ".json")
             rec = {"property": prop, "obligation": ob.name, "kind": ob.kind, "why": ob.reason or ob.info.get("why", ""),
@@ -206,7 +280,8 @@ def main():
             if ob.model is not None:
                 rec["solver_model"] = str(ob.model)[:4000]
             if ri and ob.model is not None:
-                rec["case"] = {"kind": ri["kind"], "values": concretize(ob.model, ri["syms"]), **ri.get("extra", {})}
+                model = physical_model(ob, S) or ob.model
+                rec["case"] = {"kind": ri["kind"], "values": concretize(model, ri["syms"]), **ri.get("extra", {})}
                 with open(os.path.join(HERE, rp), "w") as f:
                     json.dump(rec, f, indent=1)
                 if not a.no_native:
@@ -296,7 +371,27 @@ def main():
     # ---- thorough tier: independent second solver on a sample, and a rehearsal of the kept seeded changes
     second = None
     rehearsal = None
+    axioms_lean = None
     if a.tier == "thorough":
+        # the axiom schemas behind the ground instances, proved in Lean 4 + Mathlib (cached per file hash under .run/)
+        ax_file = os.path.join(HERE, "pyvc", "axioms", "Axioms.lean")
+        sha = hashlib.sha256(open(ax_file, "rb").read()).hexdigest()[:16]
+        stamp = os.path.join(HERE, ".run", f"axioms_{sha}.ok")
+        if os.path.exists(stamp):
+            axioms_lean = {"file": "pyvc/axioms/Axioms.lean", "sha256_16": sha, "status": "verified by lean 4.33 + Mathlib earlier in this sandbox (stamp in .run/)"}
+        else:
+            try:
+                pr = subprocess.run([os.path.join(HERE, "tools", "check_axioms.sh")], capture_output=True, text=True, timeout=1800)
+                if pr.returncode == 0 and "AXIOMS-OK" in pr.stdout:
+                    os.makedirs(os.path.dirname(stamp), exist_ok=True)
+                    open(stamp, "w").write(pr.stdout)
+                    axioms_lean = {"file": "pyvc/axioms/Axioms.lean", "sha256_16": sha, "status": "verified by lean 4.33 + Mathlib in this run"}
+                else:
+                    print(pr.stdout[-2000:])
+                    print(f"CHECKER-CRASH property={prop}: pyvc/axioms/Axioms.lean does not check")
+                    return 3
+            except (subprocess.TimeoutExpired, OSError) as e:
+                axioms_lean = {"file": "pyvc/axioms/Axioms.lean", "sha256_16": sha, "status": f"NOT verified in this run ({type(e).__name__}); the schemas are then trusted"}
         import random
         from pyvc.solver import _cvc5_check
         cand = [o for o in obs if o.status == "discharged" and o.backend in ("z3", "z3-tactic") and not isinstance(o.goal, bool)]
@@ -365,7 +460,7 @@ def main():
             "undecided_clauses": meta.get("undecided_clauses", []),
             "known_findings_matched": {kid: names for kid, (k, names) in seen_known.items()},
             "bounded": standin.get("summary") if standin else None,
-            "second_solver": second, "seeded_change_rehearsal": rehearsal,
+            "second_solver": second, "seeded_change_rehearsal": rehearsal, "axiom_schemas_lean": axioms_lean,
             "explanation": (scope_note + " " if scope_note else "") + ("every obligation generated from the current /repo sources was discharged" if level == "proof" else
                             (f"every obligation was discharged except those of the recorded known findings {sorted(seen_known)} (genuine defects of the tree, see known_findings.json); not a proof of the whole property" if all_accounted else
                              "NOT a proof on this run: " + "; ".join([f"{len(violations)} failed obligations", f"{len(undecided)} undecided", f"{len(S.unsupported)} functions out of reach"]))),
